@@ -562,13 +562,16 @@ def _native(case, hashes=None):
     return bad
 
 
-def _native_all_orders(case):
-    """the case as it is, then under every order CPython's sets can iterate the components in (hash assignment = a permutation)"""
+def _native_all_orders(case, stride=1):
+    """the case as it is, then under every order CPython's sets can iterate the components in (hash assignment = a permutation);
+    stride > 1: every stride-th permutation only (validation of passing samples of the larger worlds; counterexamples get all)"""
     bad = _native(case)
     if bad:
         return bad
     import itertools
-    for hs in itertools.permutations(range(case["n"])):
+    for k, hs in enumerate(itertools.permutations(range(case["n"]))):
+        if k % stride:
+            continue
         bad = _native(case, list(hs))
         if bad:
             return bad
@@ -598,7 +601,7 @@ def replay(rec):
 def check_samples(payload):
     ok, mism = 0, []
     for s in payload["samples"]:
-        bad = _native_all_orders(s)
+        bad = _native_all_orders(s, 1 if s["n"] <= 4 else 17)
         if bad:
             mism.append({"sample": s, "bad": bad})
         else:
